@@ -1,4 +1,6 @@
 import CacheVerif.Proofs.ProtoLocks
+import CacheVerif.Proofs.ProtoHold
+import CacheVerif.Proofs.ProtoData
 import CacheVerif.Proofs.DeepTrace
 import CacheVerif.Proofs.DeepTraceOf
 /-!
@@ -50,6 +52,36 @@ theorem C13_deadlock_free (s : St K V) (h : Reach p s) (t : Tid)
     ∃ u, (s.l u).pc ≠ .idle ∧ (s.l u).pc ≠ .rgVisit ∧ ∀ c, (step p s u c).isSome = true :=
   deadlock_free_strong p s h t hmid
 
+/-- **a bucket lock is held for a bounded number of the holder's own steps, none of which can block** (every reachable
+state, whatever the other threads do): the holder - a writer inside its critical section, the resizer copying one
+bucket, `Range` snapshotting one bucket - can always take its next step, and that step either releases the lock or keeps
+it with a strictly smaller measure, which never exceeds the number of counter stripes + 7.  So a thread that waits for
+a bucket lock waits for finitely many, always enabled, steps of its holder; with `C13_deadlock_free` and
+`C13_no_lost_wakeup` that is termination of every call under a fair scheduler (fairness itself is outside the model;
+the user function of `Compute` is one step: the property's own exclusion). -/
+theorem C13_lock_hold_bounded (hmin : 0 < p.minLen) (s : St K V) (h : Reach p s) (u : Tid) (T i : Nat)
+    (hh : holdsBucket (s.l u) = some (T, i)) (c : Choice K V) :
+    Proofs.ProtoHold.holdMeasure p s.g (s.l u) ≤ p.stripes (s.g.tables (s.l u).tbl).len + 7 ∧
+    ∃ s', step p s u c = some s' ∧
+      (holdsBucket (s'.l u) = none ∨
+       (holdsBucket (s'.l u) = some (T, i) ∧
+        Proofs.ProtoHold.holdMeasure p s'.g (s'.l u) < Proofs.ProtoHold.holdMeasure p s.g (s.l u))) := by
+  have hi := inv_reach p s h
+  have hd := Proofs.ProtoData.dinv_reach p hmin s h
+  refine ⟨?_, ?_⟩
+  · unfold Proofs.ProtoHold.holdMeasure
+    cases (s.l u).pc <;> simp <;> omega
+  · have hen := Proofs.ProtoHold.holder_enabled p u s.g (s.l u) c (hi.2 u).wf T i hh
+    cases hts : tstep p u s.g (s.l u) c with
+    | none => rw [hts] at hen; cases hen
+    | some r =>
+      obtain ⟨g', l'⟩ := r
+      refine ⟨{ g := g', l := fun x => if x = u then l' else s.l x }, by simp [step, hts], ?_⟩
+      have hlt : (s.l u).tbl < s.g.ntables := Nat.lt_of_le_of_lt (hd.ld u).tblLe hi.1.2
+      have hlen := Proofs.ProtoData.step_len p u s.g (s.l u) c g' l' hts (s.l u).tbl hlt
+      have := Proofs.ProtoHold.hold_step p u s.g (s.l u) c g' l' T i hh hts hlen
+      simpa using this
+
 /-- **a writer retries only before it has called the user function** (resize in progress, newer table, need to
 grow): after the call it proceeds to commit, unlock and return -/
 theorem C13_retry_only_before_fn (s : St K V) (h : Reach p s) (u : Tid) (hfn : (s.l u).fnCalls = 1) :
@@ -63,6 +95,10 @@ hypotheses of `C13_deadlock_free` are satisfiable after one step. -/
 def exP : Params Nat := { growThr := fun n => n * 9 / 4, shrinkThr := fun n => n * 3 / 128, bkt := fun _ k => k, minLen := 2, growOnly := false, stripes := fun _ => 8 }
 
 example : Reach (V := Nat) exP (init exP) := ⟨[], rfl⟩
+/-- non-vacuity of `C13_lock_hold_bounded`: after two steps of `Store(1, 5)` thread 0 holds the lock of root bucket 1 of
+generation 0, with measure 8 + 7 -/
+example : ∃ s, run (V := Nat) exP (init exP) [(0, { op := some (.dc 1 (fun _ => (5, false)) false false) }), (0, {}), (0, {})] = some s ∧
+    holdsBucket (s.l 0) = some (0, 1) ∧ Proofs.ProtoHold.holdMeasure exP s.g (s.l 0) = 15 := ⟨_, rfl, rfl, rfl⟩
 example : ∃ s, run (V := Nat) exP (init exP) [(0, { op := some (.dc 1 (fun _ => (5, false)) false false) }), (0, {}), (0, {})] = some s ∧
     (s.l 0).pc = .dcChkResizing := ⟨_, rfl, rfl⟩
 
